@@ -158,6 +158,15 @@ pub fn run_history_here(h: &History) -> Vec<Outcome> {
 /// A line starting with `H ` carries a History and is answered with a JSON list of outcomes.
 pub fn worker_main() {
     install_silent_panic_hook();
+    // a worker must not outlive the check that started it (a job that never returns - possible on
+    // a broken tree - would otherwise spin for ever once the check was killed)
+    let parent = std::os::unix::process::parent_id();
+    std::thread::spawn(move || loop {
+        std::thread::sleep(Duration::from_secs(2));
+        if std::os::unix::process::parent_id() != parent {
+            std::process::exit(3);
+        }
+    });
     let handle = std::thread::Builder::new()
         .stack_size(8 << 20)
         .spawn(|| {
